@@ -3,18 +3,21 @@ CONFIG = {
     "driver": "c15_driver.ml",
     "model_module": "c15_model",
     "level": "proof",
-    "level_text": "Coq theorems (no axioms) about executable models of gtab.Info.FindLookups, kern.Read, the kern->GPOS conversion and standardLigatures of sfnt.Read, and Font.NewLayouter/Layouter.Layout. find_lookups_wf: for EVERY answer of the x/text matcher and every enumeration order of Go's maps the selected lookups are in range, strictly ascending (no duplicates) and exactly the lookups of the required feature plus those of the optional features switched on, of the language system the matcher pointed at; find_lookups_deterministic: the result does not depend on map iteration order (refuted for the code before fixes/C15-findlookups-order.diff); nil switch map = regenerated default feature sets. The models are tied to the code by regenerated constants (default feature sets, ligature list, kern flag masks) and by running the real code and the extracted model on generated script lists (1..20 language systems), kern tables (structured, mutated, random), in-memory fonts and font files read back through sfnt.Read.",
-    "level_note": "Trusted: Coq kernel, extraction (ExtrOcamlBasic), the Go harness and its oracles. The Go code is modelled, not verified. The x/text language matcher is external: every theorem holds for every matcher function. The shaping engine is modelled only on the fragment sfnt.Read synthesises itself (one pair-adjustment lookup from kern, one ligature lookup from the cmap, lookups without subtables); other lookups are C06/C07's and are exercised by oracle-only cases. cmap subtable selection (GetBest) and table round trips are C09/C01's.",
+    "level_text": "Coq theorems (Qed, no axioms) about executable models of gtab.Info.FindLookups, kern.Read, the kern->GPOS conversion and standardLigatures of sfnt.Read, and Font.NewLayouter/Layouter.Layout. find_lookups_wf: for EVERY answer of the x/text matcher and every enumeration order of Go's two maps the selected lookups are in range, strictly ascending (no duplicates) and exactly the lookups of the required feature plus those of the optional features switched on (selection_rule) of the language system the matcher pointed at; find_lookups_deterministic: the result does not depend on map iteration order (find_lookups_unsorted_refuted: it did before fixes/C15-findlookups-order.diff); layouter_nil_means_defaults: nil switch map = the regenerated default feature sets. kern_read_total: kern.Read never panics, terminates, record count bounded; kern_reads_file_format: on the bytes of any well-formed version-0 table the record stream is that of the selected format-0 subtables; kern_read_lookup / kern_value_sum / _override / _minimum: the stored value of a pair is the table read for that pair alone (sum, max, override as the coverage bits say, kern_flag_reading). kern_exact: a font carrying only kern is laid out one glyph per character with glyph i advanced by exactly the table's value for (glyph i, glyph i+1), for every language, matcher and switch map. layout_no_rule_identity: with no applicable rule the output is one glyph per character carrying that character and the font's advance (0 for GDEF marks); panic iff a character maps outside the glyph set. standard_ligatures_def / _longest_first, liga_first_match_wins, layout_outcome (text conserved, never longer, no fuel exhaustion). The models are tied to the code by regenerated constants (default feature sets, ligature list, kern masks) and by running the real code and the extracted model on generated script lists (0..20 language systems), kern tables (structured, mutated, random, all 256 coverage bytes), in-memory fonts and font files written, extended with a kern table and read back through sfnt.Read.",
+    "level_note": "Trusted: Coq kernel, extraction (ExtrOcamlBasic), the Go harness and its oracles. The Go code is modelled, not verified. The x/text language matcher is external: every theorem holds for every matcher function (a matcher index beyond the tag list is the only source of Panic in feature selection). The shaping engine is modelled only on the fragment sfnt.Read synthesises itself (one pair-adjustment lookup from kern with flags 0, one ligature lookup from the cmap with flags 0, lookups without subtables); other lookups are C06/C07's and are exercised here by oracle-only cases. cmap subtable selection (GetBest) and the table round trips used to build font files are C09/C01's. NewLayouter's error return (no usable cmap) is not modelled.",
     "trusted_base": [
-        "modelled, not verified: opentype/gtab/lookup.go FindLookups, kern/kern.go Read, read.go (kern -> GPOS), ligatures.go, layout.go; tied by regenerated constants (Gen/C15.v) and by correspondence on generated inputs",
-        "golang.org/x/text/language matcher: a Section variable (any function lang -> tag list -> index); the harness asks x/text for the index on the sorted tag list and hands it to the model",
-        "language.Tag.String() is injective on the keys of one script list (the repaired FindLookups sorts by it)",
+        "modelled, not verified: opentype/gtab/lookup.go FindLookups, kern/kern.go Read, read.go (kern -> GPOS, call of standardLigatures), ligatures.go, layout.go, gdef.IsMark, Font.GlyphWidth; tied by regenerated constants (Gen/C15.v) and by correspondence on generated inputs",
+        "golang.org/x/text/language matcher: a Section variable (any function lang -> tag list -> index); the harness asks x/text for the index on the sorted tag list and hands it to the model as a table",
+        "language.Tag.String() is injective on the keys of one script list (the repaired FindLookups sorts by it) and language.Parse(t.String()) == t for the tags the harness uses",
         "Go's `for _, r := range s` decoding of the string into runes; the model starts from the rune list",
+        "Gpos2_1.apply / Gsub4_1.apply / Context.Apply restricted to LookupFlags = 0, no nested actions (what read.go builds); mirrored by pair_pass / liga_pass",
     ],
     "assumptions": [
+        "Go map keys are distinct (NoDup on the script list's tags)",
         "feature tags are 4 bytes; FeatureList entries are non-nil (what gtab.Read delivers)",
         "glyph widths are integers in the int16 range (glyf: always; CFF: integer-valued widths)",
-        "kern_exact: accumulated kern values and advance+kern stay inside int16 (Go's int16 arithmetic wraps silently; witness kern_overflow_refuted)",
+        "kern_value_sum: partial sums stay inside int16 (Go's int16 addition wraps silently; witness kern_overflow_refuted: 30000+30000 = -5536); kern_exact states the advance with the same wrap (wrapi16)",
+        "kern from a kern table is the *required* feature of the synthetic GPOS (read.go: Required: 0): it is applied whatever the caller's switches say; kern_exact is stated accordingly",
     ],
     "coq_timeout": 900,
     "gen_timeout": 1800,
